@@ -123,6 +123,14 @@ def s09_pass_through(ctx):
                         ok = True     # loop variable of a for-loop rewrite
                     elif a[0] == 'field' and a[1][0] in ('as',):   # Some(x) payload of Iterator::next in a loop
                         ok = True
+                    elif a[0] in ('index', 'cindex') or (a[0] == 'call' and (a[4].endswith('Index::index') or a[4].endswith('::get_unchecked')) and len(a[2]) == 2):
+                        # element of the input sequence selected by a loop counter (`inputs[i]` in a while / index loop)
+                        base = a[1] if a[0] in ('index', 'cindex') else a[2][0]
+                        idx = a[2] if a[0] in ('index', 'cindex') else a[2][1]
+                        rooted = any(isinstance(x, tuple) and x and x[0] == 'arg' and x[1] >= 2 for x in walk_tree(base))
+                        while isinstance(idx, tuple) and idx and idx[0] in ('ref', 'deref'):
+                            idx = idx[1]
+                        ok = rooted and isinstance(idx, tuple) and idx[0] in ('local', 'field')
                 if not ok:
                     r.violate(key + '|next-arg', 'next() is not fed the element itself but %s' % (tree_str(arg) if arg else '?'), b.file, b.term_line(bi))
                 r.sample({'wrapper': key, 'kind': 'steps next() once per element', 'site': '%s:%d' % (b.file, b.term_line(bi))})
